@@ -13,8 +13,8 @@ CDIR = os.path.join(VERIF, "contracts", "verus")
 # unit -> (template, properties served, {fn name -> properties} overrides)
 PRELUDE_FNS = {"make_valid_address|calculate_from_offset|inc_addr|separate_bytes": ["C04", "C09"]}
 UNITS = {
-    "loader": {"tpl": "loader.rs", "props": ["C12", "C09", "C04"],
-               "fn_props": {**PRELUDE_FNS, "ld_.*": ["C12", "C09"]}},
+    "loader": {"tpl": "loader.rs", "props": ["C12", "C09", "C04", "C10"],     # C10: the loader's side of "every data line is accepted" (its productions
+               "fn_props": {**PRELUDE_FNS, "ld_.*": ["C12", "C09", "C10"]}},   # never refuse; their token shapes are anchors of this unit)
     "mapper": {"tpl": "mapper.rs", "props": ["C16", "C20"],      # C20: the prompt names the instruction's line through this map
                "fn_props": {**PRELUDE_FNS, ".*": ["C16", "C20"]}},
     "lexer": {"tpl": "lexer.rs", "props": ["C16", "C09"],
